@@ -5,7 +5,7 @@ import vy
 from vyxal import lexer
 
 RULE = ("programs = context (42 fixed prefixes/suffixes: top level, every branch of every structure, every modifier operand slot, "
-        "nested) x literal kind (7) x payload over the 28 syntax-significant characters; quick: every payload of length 1 (and 2 "
+        "nested) x literal kind (7) x payload over the 28 syntax-significant characters and the 8 characters the lexer itself reacts to (\\ ` « » ‛ # ⁺ newline); quick: every payload of length 1 (and 2 "
         "for two-character strings) plus seeded random length-2 payloads and random piece programs; thorough: every payload of "
         "length <= 2, exhaustively. Oracle: the parse of the program with the payload and with a neutral payload of the same length "
         "have the same shape (token values of literal kinds erased; errors compared too). Every program is also lexed and parsed by "
@@ -40,7 +40,7 @@ ORACLES = {"payload_shape": o_payload_shape}
 
 
 def payloads(kind, maxlen, rng=None, nrand=0):
-    A = gens.SYNTAX28
+    A = gens.SYNTAX28 + gens.LEXSIG
     out = []
     for L in range(1, maxlen + 1):
         for t in itertools.product(A, repeat=L):
@@ -62,7 +62,8 @@ def run(ctx, widen=False):
             else:
                 ps = payloads(kind, 1)
                 if kind not in ("escChar", "cpnum"):
-                    ps += ["".join(ctx.rng.choice(gens.SYNTAX28) for _ in range(2)) for _ in range(12)]
+                    ps += ["".join(ctx.rng.choice(gens.SYNTAX28 + gens.LEXSIG) for _ in range(2)) for _ in range(12)]
+                    ps += [a + b for a in "|];" for b in gens.LEXSIG] + [b + a for a in "|];" for b in gens.LEXSIG]
                     ps = [p for p in ps if gens.payload_ok(kind, p)]
             for p in ps:
                 inp = {"pre": pre, "kind": kind, "p": p, "post": post}
